@@ -1,8 +1,14 @@
-(* Proofs/Kde.v — lemmas about Model/Kde.v (exact KDE model over Q). *)
-From MM Require Import Base.Num Base.GASort Model.Sample Model.Quantile Model.Kde.
+(* Proofs/Kde.v — lemmas about Model/Kde.v (exact KDE model over Q) against Spec/Kde.v.
+   Everything in this file is over Q / Z / lists and closed under the global context.
+   The analytic statements (derivative pair, integrals) live over the reals in Proofs/KdeR.v
+   (about RealSpec/KdeR.v) and are tied to the rational spec in Proofs/KdeQR.v. *)
+From MM Require Import Base.Num Base.GASort Model.Sample Model.Quantile Model.Kde Spec.Kde.
 From Coq Require Import Qround Lqa Lra Psatz.
 Local Open Scope Q_scope.
 
+(* ====================================================================== *)
+(* 0. boolean tests                                                         *)
+(* ====================================================================== *)
 Lemma Qltb_true (a b : Q) : Qltb a b = true <-> a < b.
 Proof.
   unfold Qltb. rewrite negb_true_iff. split; intro H.
@@ -13,8 +19,36 @@ Lemma Qltb_false (a b : Q) : Qltb a b = false <-> b <= a.
 Proof.
   unfold Qltb. rewrite negb_false_iff. apply Qle_bool_iff.
 Qed.
+Lemma Qle_bool_false (a b : Q) : Qle_bool a b = false <-> b < a.
+Proof.
+  split; intro H.
+  - apply Qnot_le_lt. intro L. apply Qle_bool_iff in L. congruence.
+  - destruct (Qle_bool a b) eqn:E; auto. apply Qle_bool_iff in E. exfalso. apply (Qlt_not_le _ _ H E).
+Qed.
+Lemma Qeq_bool_false (a b : Q) : Qeq_bool a b = false <-> ~ a == b.
+Proof.
+  split; intro H.
+  - intro E. apply Qeq_bool_iff in E. congruence.
+  - destruct (Qeq_bool a b) eqn:E; auto. apply Qeq_bool_iff in E. contradiction.
+Qed.
+Lemma Qltb_comp (a b c d : Q) : a == c -> b == d -> Qltb a b = Qltb c d.
+Proof. intros H1 H2. unfold Qltb. now rewrite H1, H2. Qed.
 
-(* ---------- Epanechnikov kernel ---------- *)
+Ltac qb :=
+  repeat match goal with
+  | H : Qltb _ _ = true |- _ => apply Qltb_true in H
+  | H : Qltb _ _ = false |- _ => apply Qltb_false in H
+  | H : Qle_bool _ _ = true |- _ => apply Qle_bool_iff in H
+  | H : Qle_bool _ _ = false |- _ => apply Qle_bool_false in H
+  | H : Qeq_bool _ _ = true |- _ => apply Qeq_bool_iff in H
+  | H : Qeq_bool _ _ = false |- _ => apply Qeq_bool_false in H
+  | H : (_ && _)%bool = true |- _ => apply andb_true_iff in H; destruct H
+  | H : (_ || _)%bool = false |- _ => apply orb_false_iff in H; destruct H
+  end.
+
+(* ====================================================================== *)
+(* 1. Epanechnikov kernel                                                   *)
+(* ====================================================================== *)
 Lemma epan_pdf_nonneg (h x : Q) : 0 < h -> 0 <= epan_pdf h x.
 Proof.
   intro Hh. unfold epan_pdf.
@@ -28,3 +62,372 @@ Proof.
     setoid_replace (x * x * (1 / (h * h))) with (x * x / (h * h)) by (field; lra).
     apply Qle_shift_div_r; auto. lra.
 Qed.
+
+(* the density vanishes outside the OPEN interval (-h, h) — literally 0 *)
+Lemma epan_pdf_outside (h x : Q) : x <= - h \/ h <= x -> epan_pdf h x = 0.
+Proof.
+  intros [H|H]; unfold epan_pdf.
+  - apply Qltb_false in H. now rewrite H.
+  - apply Qltb_false in H. rewrite H. now rewrite andb_false_r.
+Qed.
+
+(* inside the support it is the parabola (3/(4h)) (1 - x^2/h^2), and strictly positive *)
+Lemma epan_pdf_inside (h x : Q) : 0 < h -> - h < x -> x < h ->
+  epan_pdf h x == (3 # 4) / h * (1 - x * x / (h * h)) /\ 0 < epan_pdf h x.
+Proof.
+  intros Hh H1 H2. unfold epan_pdf.
+  apply Qltb_true in H1 as B1. apply Qltb_true in H2 as B2. rewrite B1, B2. cbn [andb].
+  assert (Hhh : 0 < h * h) by nra.
+  split; [field; lra|].
+  apply Qmult_lt_0_compat.
+  - apply Qlt_shift_div_l; auto. lra.
+  - assert (x * x * (1 / (h * h)) < 1); [| lra].
+    setoid_replace (x * x * (1 / (h * h))) with (x * x / (h * h)) by (field; lra).
+    apply Qlt_shift_div_r; auto. nra.
+Qed.
+
+Lemma epan_pdf_zero_iff (h x : Q) : 0 < h -> (epan_pdf h x == 0 <-> x <= - h \/ h <= x).
+Proof.
+  intro Hh. split.
+  - intro E. destruct (Qlt_le_dec (- h) x) as [A|A]; [|now left].
+    destruct (Qlt_le_dec x h) as [B|B]; [|now right].
+    destruct (epan_pdf_inside h x Hh A B) as [_ P]. rewrite E in P. lra.
+  - intro H. now rewrite (epan_pdf_outside h x H).
+Qed.
+
+Lemma epan_pdf_comp (h x y : Q) : x == y -> epan_pdf h x == epan_pdf h y.
+Proof.
+  intro E. unfold epan_pdf.
+  rewrite (Qltb_comp (- h) x (- h) y), (Qltb_comp x h y h) by (auto; reflexivity).
+  destruct (Qltb (- h) y && Qltb y h); [now rewrite E | reflexivity].
+Qed.
+
+(* the kernel is even *)
+Lemma epan_pdf_even (h x : Q) : epan_pdf h (- x) == epan_pdf h x.
+Proof.
+  unfold epan_pdf.
+  assert (A : Qltb (- h) (- x) = Qltb x h).
+  { destruct (Qltb x h) eqn:E; qb; [apply Qltb_true | apply Qltb_false]; lra. }
+  assert (B : Qltb (- x) h = Qltb (- h) x).
+  { destruct (Qltb (- h) x) eqn:E; qb; [apply Qltb_true | apply Qltb_false]; lra. }
+  rewrite A, B, andb_comm.
+  destruct (Qltb (- h) x && Qltb x h); [ring | reflexivity].
+Qed.
+
+(* distribution function: literally 0 left of the support *)
+Lemma epan_cdf_left (h x : Q) : 0 <= h -> x <= - h -> epan_cdf h x = 0.
+Proof.
+  intros Hh H. unfold epan_cdf.
+  assert (A : Qltb h x = false) by (apply Qltb_false; lra).
+  assert (B : Qltb (- h) x = false) by (apply Qltb_false; lra).
+  now rewrite A, B.
+Qed.
+
+Lemma epan_cdf_mid (h x : Q) : - h < x -> x <= h ->
+  epan_cdf h x == (1 # 4) * (2 + 3 * (x / h) - (x / h) * (x / h) * (x / h)).
+Proof.
+  intros H1 H2. unfold epan_cdf.
+  assert (A : Qltb h x = false) by (apply Qltb_false; lra).
+  assert (B : Qltb (- h) x = true) by (apply Qltb_true; lra).
+  rewrite A, B. cbv zeta. assert (h == 0 \/ ~ h == 0) as [Z|NZ].
+  { destruct (Qeq_dec h 0); auto. }
+  - exfalso. lra.
+  - field. exact NZ.
+Qed.
+
+(* and 1 from the right end of the support on (at x = h by the polynomial) *)
+Lemma epan_cdf_right (h x : Q) : 0 < h -> h <= x -> epan_cdf h x == 1.
+Proof.
+  intros Hh H. destruct (Qlt_le_dec h x) as [A|A].
+  - unfold epan_cdf. apply Qltb_true in A. now rewrite A.
+  - assert (E : x == h) by lra.
+    rewrite epan_cdf_mid by lra. rewrite E. field. lra.
+Qed.
+
+Lemma epan_cdf_comp (h x y : Q) : x == y -> epan_cdf h x == epan_cdf h y.
+Proof.
+  intro E. unfold epan_cdf.
+  rewrite (Qltb_comp h x h y), (Qltb_comp (- h) x (- h) y) by (auto; reflexivity).
+  destruct (Qltb h y); [reflexivity|]. destruct (Qltb (- h) y); [|reflexivity].
+  cbv zeta. now rewrite E.
+Qed.
+
+(* the polynomial piece is non-decreasing on [-1, 1]:
+   P(v) - P(u) = (v - u) (3 - (u^2 + u v + v^2)) / 4 *)
+Lemma epan_poly_mono (u v : Q) : -1 <= u -> u <= v -> v <= 1 ->
+  (1 # 4) * (2 + 3 * u - u * u * u) <= (1 # 4) * (2 + 3 * v - v * v * v).
+Proof.
+  intros A B C.
+  assert (E : (1 # 4) * (2 + 3 * v - v * v * v) - (1 # 4) * (2 + 3 * u - u * u * u)
+              == (1 # 4) * ((v - u) * (3 - (u * u + u * v + v * v)))) by ring.
+  assert (0 <= (v - u) * (3 - (u * u + u * v + v * v))); [| lra].
+  apply Qmult_le_0_compat; [lra|]. nra.
+Qed.
+
+Theorem epan_cdf_mono (h a b : Q) : 0 < h -> a <= b -> epan_cdf h a <= epan_cdf h b.
+Proof.
+  intros Hh Hab.
+  assert (Pos : forall x, - h < x -> x <= h ->
+            -1 < x / h /\ x / h <= 1).
+  { intros x X1 X2. split.
+    - apply Qlt_shift_div_l; lra.
+    - apply Qle_shift_div_r; lra. }
+  assert (Range : forall x, - h < x -> x <= h -> 0 <= epan_cdf h x /\ epan_cdf h x <= 1).
+  { intros x X1 X2. destruct (Pos x X1 X2) as [U1 U2]. rewrite epan_cdf_mid by assumption.
+    split.
+    - pose proof (epan_poly_mono (-1) (x / h)). lra.
+    - pose proof (epan_poly_mono (x / h) 1). lra. }
+  destruct (Qlt_le_dec (- h) a) as [A1|A1].
+  - destruct (Qlt_le_dec h a) as [A2|A2].
+    + rewrite (epan_cdf_right h a), (epan_cdf_right h b) by lra. lra.
+    + destruct (Qlt_le_dec h b) as [B2|B2].
+      * rewrite (epan_cdf_right h b) by lra. apply Range; assumption.
+      * rewrite !epan_cdf_mid by lra.
+        destruct (Pos a) as [U1 U2]; try lra. destruct (Pos b) as [V1 V2]; try lra.
+        apply epan_poly_mono; try lra.
+        apply Qle_shift_div_l; [lra|].
+        setoid_replace (a / h * h) with a by (field; lra). exact Hab.
+  - rewrite (epan_cdf_left h a) by lra.
+    destruct (Qlt_le_dec (- h) b) as [B1|B1].
+    + destruct (Qlt_le_dec h b) as [B2|B2].
+      * rewrite (epan_cdf_right h b) by lra. lra.
+      * apply Range; assumption.
+    + rewrite (epan_cdf_left h b) by lra. lra.
+Qed.
+
+Theorem epan_cdf_range (h x : Q) : 0 < h -> 0 <= epan_cdf h x /\ epan_cdf h x <= 1.
+Proof.
+  intro Hh. split.
+  - destruct (Qlt_le_dec x (- h)) as [A|A].
+    + rewrite epan_cdf_left by lra. lra.
+    + rewrite <- (epan_cdf_left h (- h)) at 1 by lra. apply epan_cdf_mono; assumption.
+  - destruct (Qlt_le_dec x h) as [A|A].
+    + rewrite <- (epan_cdf_right h h) by lra. apply epan_cdf_mono; lra.
+    + rewrite epan_cdf_right by lra. lra.
+Qed.
+
+(* total mass of the kernel: K(h) - K(-h) = 1 *)
+Theorem epan_mass_one (h : Q) : 0 < h -> epan_cdf h h - epan_cdf h (- h) == 1.
+Proof.
+  intro Hh. rewrite (epan_cdf_left h (- h)) by lra. rewrite epan_cdf_right by lra. ring.
+Qed.
+
+(* symmetry K(-x) = 1 - K(x) *)
+Lemma epan_cdf_sym (h x : Q) : 0 < h -> epan_cdf h (- x) == 1 - epan_cdf h x.
+Proof.
+  intro Hh.
+  destruct (Qlt_le_dec x (- h)) as [A|A].
+  - rewrite (epan_cdf_left h x), (epan_cdf_right h (- x)) by lra. ring.
+  - destruct (Qlt_le_dec h x) as [B|B].
+    + rewrite (epan_cdf_left h (- x)), (epan_cdf_right h x) by lra. ring.
+    + destruct (Qeq_dec x (- h)) as [E|NE].
+      * rewrite (epan_cdf_comp h x (- h) E), (epan_cdf_comp h (- x) h) by lra.
+        rewrite (epan_cdf_left h (- h)), epan_cdf_right by lra. ring.
+      * destruct (Qeq_dec x h) as [E2|NE2].
+        -- rewrite (epan_cdf_comp h x h E2), (epan_cdf_comp h (- x) (- h)) by lra.
+           rewrite (epan_cdf_left h (- h)), epan_cdf_right by lra. ring.
+        -- assert (- h < x) by (destruct (Qlt_le_dec (- h) x); auto; exfalso; apply NE; lra).
+           assert (x < h) by (destruct (Qlt_le_dec x h); auto; exfalso; apply NE2; lra).
+           rewrite !epan_cdf_mid by lra. field. lra.
+Qed.
+
+(* ====================================================================== *)
+(* 2. the closure y = mix g: the weighted average of the kernel             *)
+(* ====================================================================== *)
+Lemma fold_Qred_sum {A} (t : A -> Q) (l : list A) (a : Q) :
+  fold_left (fun acc p => Qred (acc + t p)) l a == a + Qsum (map t l).
+Proof.
+  revert a. induction l as [|p l IH]; intro a; cbn [fold_left map Qsum]; [ring|].
+  rewrite IH, Qred_correct. ring.
+Qed.
+
+Lemma Qsum_ext {A} (s t : A -> Q) (l : list A) :
+  (forall p, In p l -> s p == t p) -> Qsum (map s l) == Qsum (map t l).
+Proof.
+  induction l as [|p l IH]; intro H; cbn [map Qsum]; [reflexivity|].
+  rewrite (H p (or_introl eq_refl)), IH; [reflexivity|]. intros q Hq. apply H. now right.
+Qed.
+
+Lemma Qsum_nonneg {A} (t : A -> Q) (l : list A) :
+  (forall p, In p l -> 0 <= t p) -> 0 <= Qsum (map t l).
+Proof.
+  induction l as [|p l IH]; intro H; cbn [map Qsum]; [lra|].
+  pose proof (H p (or_introl eq_refl)). assert (0 <= Qsum (map t l)); [|lra].
+  apply IH. intros q Hq. apply H. now right.
+Qed.
+
+Lemma Qsum_le {A} (s t : A -> Q) (l : list A) :
+  (forall p, In p l -> s p <= t p) -> Qsum (map s l) <= Qsum (map t l).
+Proof.
+  induction l as [|p l IH]; intro H; cbn [map Qsum]; [lra|].
+  pose proof (H p (or_introl eq_refl)). assert (Qsum (map s l) <= Qsum (map t l)); [|lra].
+  apply IH. intros q Hq. apply H. now right.
+Qed.
+
+(* a sum of non-negative terms is zero only if every term is *)
+Lemma Qsum_zero_inv {A} (t : A -> Q) (l : list A) :
+  (forall p, In p l -> 0 <= t p) -> Qsum (map t l) == 0 -> forall p, In p l -> t p == 0.
+Proof.
+  induction l as [|p l IH]; intros H E q Hq; [destruct Hq|].
+  cbn [map Qsum] in E.
+  pose proof (H p (or_introl eq_refl)) as P0.
+  assert (R0 : 0 <= Qsum (map t l)) by (apply Qsum_nonneg; intros r Hr; apply H; now right).
+  destruct Hq as [<-|Hq]; [lra|].
+  apply IH; auto; [intros r Hr; apply H; now right | lra].
+Qed.
+
+(* well-formed weights: as many as values *)
+Definition ws_wf (xs : list Q) (ws : option (list Q)) : Prop :=
+  match ws with None => True | Some w => length w = length xs end.
+(* ... and all positive *)
+Definition ws_pos (ws : option (list Q)) : Prop :=
+  match ws with None => True | Some w => Forall (fun wi => 0 < wi) w end.
+
+Lemma map_snd_combine (xs ws : list Q) : length ws = length xs -> map snd (combine xs ws) = ws.
+Proof.
+  revert ws. induction xs as [|x xs IH]; intros [|w ws] H; cbn in *; try discriminate; auto.
+  f_equal. apply IH. lia.
+Qed.
+
+Lemma Qofnat_S (n : nat) : Qofnat (S n) == Qofnat n + 1.
+Proof. unfold Qofnat. rewrite Nat2Z.inj_succ, <- Z.add_1_r, inject_Z_plus. reflexivity. Qed.
+Lemma Qofnat_nonneg (n : nat) : 0 <= Qofnat n.
+Proof. unfold Qofnat. change 0 with (inject_Z 0). rewrite <- Zle_Qle. lia. Qed.
+
+Lemma mix_sum_spec (g : Q -> Q) xs ws x : ws_wf xs ws ->
+  mix_sum g xs ws x == Qsum (map (fun p => snd p * g (x - fst p)) (kpairs xs ws)).
+Proof.
+  intro W. unfold mix_sum, kpairs. destruct ws as [w|].
+  - rewrite (fold_Qred_sum (fun p => g (x - fst p) * snd p)). rewrite Qplus_0_l.
+    apply Qsum_ext. intros p _. ring.
+  - rewrite (fold_Qred_sum (fun xi => g (x - xi))). rewrite Qplus_0_l, map_map. cbn [fst snd].
+    apply Qsum_ext. intros p _. ring.
+Qed.
+
+Lemma mix_weight_spec xs ws : ws_wf xs ws -> mix_weight xs ws == wtotal (kpairs xs ws).
+Proof.
+  intro W. unfold mix_weight, kpairs, wtotal. destruct ws as [w|].
+  - cbn in W. rewrite map_snd_combine by exact W.
+    rewrite (fold_Qred_sum (fun wi => wi)), map_id. ring.
+  - clear W. rewrite map_map. cbn [snd]. induction xs as [|x xs IH]; [reflexivity|].
+    cbn [length map Qsum]. rewrite Qofnat_S, IH. ring.
+Qed.
+
+(* THE CLOSURE y OF KDE.PDF / KDE.CDF IS THE WEIGHTED AVERAGE OF THE KERNEL *)
+Theorem mix_is_wavg (g : Q -> Q) xs ws x : ws_wf xs ws ->
+  mix g xs ws x == wavg g (kpairs xs ws) x.
+Proof.
+  intro W. unfold mix, wavg. rewrite Qred_correct.
+  rewrite (mix_sum_spec g xs ws x W), (mix_weight_spec xs ws W). reflexivity.
+Qed.
+
+Lemma kpairs_ok xs ws : xs <> [] -> ws_wf xs ws -> ws_pos ws -> pairs_ok (kpairs xs ws).
+Proof.
+  intros Hne W P. unfold kpairs. destruct ws as [w|]; split.
+  - destruct xs as [|x xs]; [congruence|]. destruct w as [|w0 w]; [discriminate|]. discriminate.
+  - cbn in W, P. clear Hne. revert w W P. induction xs as [|x xs IH]; intros [|w0 w] W P; cbn; auto.
+    inversion P; subst. constructor; [assumption|]. apply IH; [cbn in W; lia | assumption].
+  - destruct xs; [congruence | discriminate].
+  - apply Forall_forall. intros p Hp. apply in_map_iff in Hp. destruct Hp as [x0 [<- _]]. cbn. lra.
+Qed.
+
+Lemma kpairs_fst xs ws : ws_wf xs ws -> map fst (kpairs xs ws) = xs.
+Proof.
+  unfold kpairs. destruct ws as [w|]; cbn.
+  - revert w. induction xs as [|x xs IH]; intros [|w0 w] W; cbn in *; try discriminate; auto.
+    f_equal. apply IH. lia.
+  - intros _. rewrite map_map. cbn. apply map_id.
+Qed.
+
+Lemma wtotal_pos ps : pairs_ok ps -> 0 < wtotal ps.
+Proof.
+  intros [Hne Hp]. unfold wtotal. destruct ps as [|p ps]; [congruence|].
+  inversion Hp as [|? ? P0 Pr]; subst. cbn [map Qsum].
+  assert (0 <= Qsum (map snd ps)); [|lra].
+  apply Qsum_nonneg. intros q Hq. rewrite Forall_forall in Pr. specialize (Pr q Hq). lra.
+Qed.
+
+Section Wavg.
+  Variable ps : list (Q * Q).
+  Hypothesis ps_ok : pairs_ok ps.
+
+  Let Wpos : 0 < wtotal ps := wtotal_pos ps ps_ok.
+  Let wnn : forall p, In p ps -> 0 < snd p.
+  Proof. pose proof ps_ok as [_ F]. rewrite Forall_forall in F. exact F. Qed.
+
+  Lemma wavg_nonneg (g : Q -> Q) x : (forall t, 0 <= g t) -> 0 <= wavg g ps x.
+  Proof.
+    intro G. unfold wavg. apply Qle_shift_div_l; [exact Wpos|]. rewrite Qmult_0_l.
+    apply Qsum_nonneg. intros p Hp. pose proof (wnn p Hp). specialize (G (x - fst p)). nra.
+  Qed.
+
+  Lemma wavg_le (g g' : Q -> Q) x x' :
+    (forall p, In p ps -> g (x - fst p) <= g' (x' - fst p)) -> wavg g ps x <= wavg g' ps x'.
+  Proof.
+    intro G. unfold wavg. apply Qle_shift_div_l; [exact Wpos|].
+    setoid_replace (Qsum (map (fun p => snd p * g (x - fst p)) ps) / wtotal ps * wtotal ps)
+      with (Qsum (map (fun p => snd p * g (x - fst p)) ps)) by (field; lra).
+    apply Qsum_le. intros p Hp. pose proof (wnn p Hp). specialize (G p Hp). nra.
+  Qed.
+
+  (* a monotone kernel distribution function gives a monotone estimate *)
+  Lemma wavg_mono (g : Q -> Q) a b :
+    (forall s t, s <= t -> g s <= g t) -> a <= b -> wavg g ps a <= wavg g ps b.
+  Proof. intros G Hab. apply wavg_le. intros p _. apply G. lra. Qed.
+
+  Lemma wavg_const (g : Q -> Q) x c :
+    (forall p, In p ps -> g (x - fst p) == c) -> wavg g ps x == c.
+  Proof.
+    intro G. unfold wavg.
+    assert (E : Qsum (map (fun p => snd p * g (x - fst p)) ps) == c * wtotal ps).
+    { unfold wtotal. clear Wpos wnn ps_ok. induction ps as [|p l IH]; cbn [map Qsum]; [ring|].
+      rewrite (G p (or_introl eq_refl)), IH; [ring|]. intros q Hq. apply G. now right. }
+    rewrite E. field. lra.
+  Qed.
+
+  Lemma wavg_zero_iff (g : Q -> Q) x : (forall t, 0 <= g t) ->
+    (wavg g ps x == 0 <-> forall p, In p ps -> g (x - fst p) == 0).
+  Proof.
+    intro G. split.
+    - intros E p Hp. unfold wavg in E.
+      assert (S0 : Qsum (map (fun p => snd p * g (x - fst p)) ps) == 0).
+      { setoid_replace (Qsum (map (fun p => snd p * g (x - fst p)) ps))
+          with (Qsum (map (fun p => snd p * g (x - fst p)) ps) / wtotal ps * wtotal ps) by (field; lra).
+        rewrite E. ring. }
+      pose proof (Qsum_zero_inv (fun p => snd p * g (x - fst p)) ps) as Z.
+      assert (T : snd p * g (x - fst p) == 0).
+      { apply Z; auto. intros q Hq. pose proof (wnn q Hq). specialize (G (x - fst q)). nra. }
+      pose proof (wnn p Hp). specialize (G (x - fst p)).
+      assert (~ snd p == 0) by lra.
+      apply Qmult_integral in T. destruct T; [contradiction | assumption].
+    - intro Z. apply wavg_const. exact Z.
+  Qed.
+
+  Lemma wavg_comp (g : Q -> Q) x y :
+    (forall s t, s == t -> g s == g t) -> x == y -> wavg g ps x == wavg g ps y.
+  Proof.
+    intros G E. unfold wavg. apply Qdiv_comp; [|reflexivity].
+    apply Qsum_ext. intros p _. rewrite (G (x - fst p) (y - fst p)); [reflexivity|]. now rewrite E.
+  Qed.
+
+  (* every value within [lo, hi]: a kernel that is 0 left of -r makes the estimate 0 left of
+     lo - r; a kernel distribution function that is 1 from r on makes it 1 from hi + r on *)
+  Lemma wavg_zero_left (g : Q -> Q) (r lo hi x : Q) :
+    pairs_within lo hi ps -> (forall t, t <= - r -> g t == 0) -> x <= lo - r -> wavg g ps x == 0.
+  Proof.
+    intros Hin G Hx. apply wavg_const. intros p Hp. apply G.
+    unfold pairs_within in Hin. rewrite Forall_forall in Hin. specialize (Hin p Hp). lra.
+  Qed.
+  Lemma wavg_zero_right (g : Q -> Q) (r lo hi x : Q) :
+    pairs_within lo hi ps -> (forall t, r <= t -> g t == 0) -> hi + r <= x -> wavg g ps x == 0.
+  Proof.
+    intros Hin G Hx. apply wavg_const. intros p Hp. apply G.
+    unfold pairs_within in Hin. rewrite Forall_forall in Hin. specialize (Hin p Hp). lra.
+  Qed.
+  Lemma wavg_one_right (g : Q -> Q) (r lo hi x : Q) :
+    pairs_within lo hi ps -> (forall t, r <= t -> g t == 1) -> hi + r <= x -> wavg g ps x == 1.
+  Proof.
+    intros Hin G Hx. apply wavg_const. intros p Hp. apply G.
+    unfold pairs_within in Hin. rewrite Forall_forall in Hin. specialize (Hin p Hp). lra.
+  Qed.
+End Wavg.
